@@ -90,6 +90,28 @@ def _float_close(a, b) -> bool:
     return True
 
 
+_NO_ORACLE = object()
+
+
+def py_documented(op, args):
+    """null-propagating arithmetic / comparison on python values (strings: concatenation and lexicographic order)"""
+    import operator as o
+
+    table = {"add": o.add, "sub": o.sub, "mul": o.mul, "equal": o.eq, "not_equal": o.ne, "less_than": o.lt, "less_equal": o.le,
+             "greater_than": o.gt, "greater_equal": o.ge}
+    f = table.get(op)
+    if f is None or len(args) != 2:
+        return _NO_ORACLE
+    if any(x is None for x in args):
+        return None
+    if any(isinstance(x, bool) for x in args) and op in ("add", "sub", "mul"):
+        return _NO_ORACLE
+    try:
+        return f(*args)
+    except Exception:  # noqa: BLE001
+        return _NO_ORACLE
+
+
 def documented(op, args):
     """the documented value of the operators the Lean model does not evaluate (grid without rounding ties)"""
     if op == "round":
@@ -185,6 +207,8 @@ def program_for(case) -> dict:
     else:
         args = [{"col": ["t0", n]} for n in names] + [{"lit": c} for c in case["consts"]]
     e = {"fn": case["op"], "args": args}
+    if case.get("spell"):
+        e["spell"] = case["spell"]      # the operator as users write it (`a + b`, `1 - t.x`) or the node built directly
     stmts = [
         dict(id="t0", op="source", table="g"),
         dict(id="t1", op="mutate", src="t0", cols=[["y", e]]),
@@ -256,6 +280,7 @@ def run(tier: str, seed: int) -> int:
     model_reqs, model_idx = [], []
     per_op = {}
     for ci, case in enumerate(cases):
+        case["spell"] = "op" if ci % 2 == 0 else "node"
         prog = program_for(case)
         outs = {}
         for be in ("polars", "sqlite"):
@@ -297,6 +322,11 @@ def run(tier: str, seed: int) -> int:
             for ri, (r, a, m) in enumerate(zip(case["rows"], pol[1], mvals)):
                 if not oracle.cell_eq(a, m):
                     corr.append(dict(kind="model_differs", op=case["op"], form=case["form"], args=list(r), polars=a, model=m))
+                    # an independent reading of the documentation for the plainest operators: when the real value contradicts it as
+                    # well, the operand tuple is a failing input (not only a broken correspondence)
+                    pd_ = py_documented(case["op"], r)
+                    if pd_ is not _NO_ORACLE and not oracle.cell_eq(a, pd_):
+                        diffs.append(dict(kind="documented_value_differs", op=case["op"], form=case["form"], args=list(r), backend="polars", polars=a, documented=pd_))
 
     tdiffs, n_temporal = temporal_stream()
     diffs += tdiffs
